@@ -76,6 +76,8 @@ func runC10(c *Ctx) {
 	c10Accumulators(c, mAdd, c10MetricsTable)
 	c10Accumulators(c, lAdd, c10LatencyTable)
 	c10ClosePure(c, mAdd, mClose)
+	c10FirstSampleMarker(c, lAdd)
+	c10FirstSampleMarker(c, mAdd)
 	c10CloseDivisions(c, mClose)
 	c10SuccessRange(c)
 	c10Report(c)
@@ -572,6 +574,148 @@ func minMaxGuard(fn *ssa.Function, st *ssa.Store, fa *ssa.FieldAddr, kind string
 	return "strict comparison", true
 }
 
+// c10FirstSampleMarker: when Add decides "this is the first sample" from a field being nil
+// (the estimator that Add itself creates), nothing but Add may create that field on the shared
+// value: a reader (Quantile, a reporter, Close) that initialises it in place before the first Add
+// makes the first sample look like a later one and the minimum stays at its zero value.
+func c10FirstSampleMarker(c *Ctx, add *ssa.Function) {
+	const rule = "a field whose nil-ness Add uses as its first-sample marker is written on the shared value only on paths that start in Add; other methods touch it only on a private copy (value receiver)"
+	recv := add.Params[0]
+	markers := map[int]*ssa.BinOp{}
+	eachInstr(add, func(i ssa.Instruction) {
+		bo, ok := i.(*ssa.BinOp)
+		if !ok || (bo.Op != token.EQL && bo.Op != token.NEQ) || !isNilConst(bo.Y) {
+			return
+		}
+		ld, ok := isLoad(bo.X)
+		if !ok {
+			return
+		}
+		fa, ok := ld.X.(*ssa.FieldAddr)
+		if !ok || fa.X != ssa.Value(recv) {
+			return
+		}
+		// inline lazy initialisation (`if x.f == nil { x.f = new }`) is not a marker use
+		lazyOnly := true
+		for _, r := range refs(bo) {
+			ifi, isIf := r.(*ssa.If)
+			if !isIf {
+				lazyOnly = false
+				continue
+			}
+			onlyInit := false
+			for _, in := range ifi.Block().Succs[0].Instrs {
+				if st, isSt := in.(*ssa.Store); isSt {
+					if fa2, isFA := st.Addr.(*ssa.FieldAddr); isFA && fa2.X == fa.X && fa2.Field == fa.Field {
+						onlyInit = true
+					}
+				}
+			}
+			if !onlyInit || bo.Op != token.EQL {
+				lazyOnly = false
+			}
+		}
+		if lazyOnly {
+			return
+		}
+		// a marker decides an update of another accumulator field (an optional component
+		// such as `if m.Histogram != nil { m.Histogram.Add(r) }` does not)
+		decides := false
+		eachInstr(add, func(j ssa.Instruction) {
+			ifi, isIf := j.(*ssa.If)
+			if !isIf || !flowsFrom(ifi.Cond, func(v ssa.Value) bool { return v == ssa.Value(bo) }) {
+				return
+			}
+			eachInstr(add, func(k ssa.Instruction) {
+				st, isSt := k.(*ssa.Store)
+				if !isSt || st.Block() == ifi.Block() || !ifi.Block().Dominates(st.Block()) {
+					return
+				}
+				if fa2, isFA := st.Addr.(*ssa.FieldAddr); isFA && fa2.X == fa.X && fa2.Field != fa.Field {
+					decides = true
+				}
+			})
+		})
+		if decides {
+			markers[fa.Field] = bo
+		}
+	})
+	for field, bo := range markers {
+		name := fieldName(recv.Type(), field)
+		key := "first-sample-marker:" + shortFn(add) + ":" + name
+		var bad []string
+		var sites []string
+		nWriters := 0
+		// writers of the marker field anywhere in the package
+		var sharedWriter func(w *ssa.Function, base ssa.Value, depth int) string
+		sharedWriter = func(w *ssa.Function, base ssa.Value, depth int) string {
+			switch b := base.(type) {
+			case *ssa.Alloc:
+				return "" // a private copy or a value under construction
+			case *ssa.Parameter:
+				if w == add {
+					return ""
+				}
+				if depth > 3 {
+					return shortFn(w)
+				}
+				idx := -1
+				for k, p := range w.Params {
+					if p == b {
+						idx = k
+					}
+				}
+				callers := 0
+				for _, g := range c.P.RepoFuncs("lib") {
+					var res string
+					eachInstr(g, func(i ssa.Instruction) {
+						ci, ok := i.(ssa.CallInstruction)
+						if !ok || ci.Common().StaticCallee() != w || idx >= len(ci.Common().Args) {
+							return
+						}
+						callers++
+						if r := sharedWriter(g, ci.Common().Args[idx], depth+1); r != "" && res == "" {
+							res = r
+							sites = append(sites, c.at(i))
+						}
+					})
+					if res != "" {
+						return res
+					}
+				}
+				if callers == 0 || (w.Object() != nil && w.Object().Exported()) {
+					return shortFn(w) // an entry point that writes the marker on its caller's value
+				}
+				return ""
+			default:
+				if w == add {
+					return ""
+				}
+				return shortFn(w) + " (through " + describeVal(base) + ")"
+			}
+		}
+		for _, w := range c.P.RepoFuncs("lib") {
+			eachInstr(w, func(i ssa.Instruction) {
+				st, ok := i.(*ssa.Store)
+				if !ok {
+					return
+				}
+				fa, ok := st.Addr.(*ssa.FieldAddr)
+				if !ok || fa.Field != field || !types.Identical(fa.X.Type(), recv.Type()) {
+					return
+				}
+				nWriters++
+				if r := sharedWriter(w, fa.X, 0); r != "" {
+					bad = append(bad, r)
+					sites = append(sites, c.at(st))
+				}
+			})
+		}
+		sites = append(sites, c.at(bo))
+		c.Check(len(bad) == 0, key, rule, fmt.Sprintf("%d writer(s) of %s, all reached from Add or on a private copy", nWriters, name), name+" can be created on the shared value outside Add by "+strings.Join(bad, ", ")+": a report or quantile query before the first sample defeats the first-sample test", sites...)
+	}
+}
+
 func c10ClosePure(c *Ctx, mAdd, mClose *ssa.Function) {
 	const rule = "the fields Close writes (transitively) are disjoint from the fields Add reads, except lazily initialised containers; every field Close writes is assigned in Close before Close reads it"
 	addE := transitiveEffects(mAdd)
@@ -1017,7 +1161,8 @@ func runC11(c *Ctx) {
 		if ok && qc.Value != nil {
 			q, _ = constant.Float64Val(constant.ToFloat(qc.Value))
 		}
-		recvOK := describeVal(call.Call.Args[0]) == "recv.Latencies"
+		rd := describeVal(call.Call.Args[0])
+		recvOK := rd == "recv.Latencies" || rd == "&recv.Latencies"
 		c.Check(recvOK && math.Abs(q*100-float64(n)) < 1e-9, key, r2, fmt.Sprintf("%s = Quantile(%.2f), tag %q", f.Name(), q, tag), fmt.Sprintf("%s is assigned Quantile(%v) of %s", f.Name(), q, describeVal(call.Call.Args[0])), c.at(store))
 	}
 	if found < 4 {
